@@ -255,8 +255,14 @@ func (m *Manager) AddBlocks(blocks []types.Block) error {
 	for _, b := range blocks {
 		bid := b.ID()
 		var ok bool
-		if _, bs, _ := m.store.Block(bid); bs != nil {
+		if _, bs, haveBody := m.store.Block(bid); bs != nil {
 			// already have this block
+			cs, _ = m.store.State(bid)
+			continue
+		} else if _, haveHeader := m.store.Header(bid); haveHeader && !haveBody {
+			// already have this block, but its body has been pruned; storing
+			// the body again (without its supplement) would make the block
+			// look revertible
 			cs, _ = m.store.State(bid)
 			continue
 		} else if b.ParentID != cs.Index.ID {
